@@ -82,6 +82,7 @@ type world struct {
 	keep   bool    // progk: retain the axes slices passed to T and report them after every step
 	alt    bool    // dtype suffix @alt: every operation that has a second API spelling uses it (SliceInto, tensor.Narrow, tensor.Materialize, package-level products, method forms of elementwise operations, ...)
 	kept   [][]int
+	held   [][2][]int // C18 churn: metadata lists the caller kept from tensors it let go of, with copies
 }
 
 func (w *world) dataPtr(t *tensor.Dense) (p uintptr, n uintptr, ok bool) {
